@@ -9,8 +9,8 @@ LEVEL = "model_checking"
 EXHAUSTIVE = True
 CHUNK = 1
 CASE_TIMEOUT = 600
-RULE = ("all programs built from every subset of 9 symbol features (labels at distinct and at equal addresses, constants 0/5/-5/177777/"
-        "200000/-200000/2^32, equal values under different names, mixed-case names, local labels, a forward definition chain, an unused "
+RULE = ("all programs built from every subset of 10 symbol features (labels at distinct and at equal addresses, constants 0/5/-5/177777/"
+        "200000/-200000/2^32, equal values under different names, mixed-case names, names with dots/dollars/underscores, local labels, a forward definition chain, an unused "
         "symbol, a same-named private symbol in another file, an exported label used across files) in 1-3 linked files plus an included "
         "file, each assembled through the command line with --lst under every output selector (-o x.bin, -o x.raw, -o x, -o d/x.bin, names whose stem ends in letters of the format name, "
         "--implicit-bin, make_bin, make_raw 'p/q.raw', make_wav, -o together with make_bin, none). The listing is parsed: one section per "
@@ -20,7 +20,7 @@ RULE = ("all programs built from every subset of 9 symbol features (labels at di
 ASSUMPTIONS = ["label offsets follow from the fixed-size statements of the generator", "a source file without ordinary symbols needs no section",
                "listing path: <output>.lst or <output without extension>.lst are both accepted; with -o and make_* together either output may be 'first'",
                "among equal values, plain and case-folded name order are both accepted"]
-FEATURES = ["labels", "equal-labels", "consts", "equal-values", "mixed-case", "locals", "chain", "unused", "big"]
+FEATURES = ["labels", "equal-labels", "consts", "equal-values", "mixed-case", "locals", "chain", "unused", "big", "odd-names"]
 SELECTORS = [
     (["-o", "x.bin"], None, ["x.lst", "x.bin.lst"]),
     (["-o", "x.raw"], None, ["x.lst", "x.raw.lst"]),
@@ -95,6 +95,14 @@ def build(feats, layout):
         for n in ("MixEd", "lower", "UPPER", "Zed", "alpha"):
             lines.append("%s = 3" % n)
             syms[n] = 3
+    if "odd-names" in f:
+        # names with dots, dollars, underscores and digits; two that differ only after a dot
+        for i, n in enumerate(("io.csr", "io.buf", "l.1", "l.2", "a$b", "x_y.z$", "n0.0", "q..r")):
+            lines.append("%s = %o" % (n, 0o40 + i))
+            syms[n] = 0o40 + i
+        label("lab.el")
+        lines.append("\tnop")
+        addr += 2
     if "locals" in f:
         lines.append("1$:\tnop")
         lines.append("2:\tbr 2")
